@@ -409,6 +409,20 @@ def replay_public(case):
             if not dn <= 1e-9:
                 res["violations"].append("%s(transform = identity + 4e-6): differs from the untransformed array with the matrix applied to "
                                          "every basis index (max relative deviation %.3g)" % (name, dn))
+        if case["id"] % 3 == 1 and n >= 3:
+            # 0/1-valued matrices that are not permutations or selections: a row holding two ones (the sum of two functions),
+            # a row of zeros, disjoint columns; and a true selection (rows of the identity in another order)
+            Ua = np.zeros((3, n))
+            Ua[0, 0] = Ua[0, 1] = 1.0
+            Ua[2, n - 1] = 1.0
+            Us = np.eye(n)[[n - 1, 0, 1][: min(3, n)]]
+            for nm_, Um in (("a 0/1 matrix with a row of two ones and a row of zeros", Ua), ("a selection of basis functions", Us)):
+                lm = f(shells, Um)
+                wm = apply_all(Um, typed, nb)
+                dm_ = float(common.above_noise(np.abs(lm - wm).max()) / (np.abs(wm).max() + 1e-300)) if lm.shape == wm.shape else float("inf")
+                if not dm_ <= 1e-9:
+                    res["violations"].append("%s(transform = %s): differs from the untransformed array with the matrix applied to every "
+                                             "basis index (max relative deviation %.3g)" % (name, nm_, dm_))
         lin = f(shells, U)
         wantl = apply_all(U, typed, nb)
         scl = np.abs(wantl).max() + 1e-300
